@@ -227,6 +227,23 @@ func Open(dir string, opts ...walOpt) (*WAL, error) {
 	// don't need to jump through the mutateState hoops yet!
 	w.s.Store(&newState)
 
+	// The recovered tail may already be sealed: the append that filled it wrote
+	// the index block, but the process stopped before the background rotation
+	// committed the new tail to the meta store. Complete that rotation now,
+	// otherwise every later append would fail with ErrSealed.
+	sealed, indexStart, err := newState.tail.Sealed()
+	if err != nil {
+		return nil, err
+	}
+	if sealed {
+		w.writeMu.Lock()
+		err := w.rotateSegmentLocked(indexStart)
+		w.writeMu.Unlock()
+		if err != nil {
+			return nil, err
+		}
+	}
+
 	// Delete any unused segment files left over after a crash.
 	w.deleteSegments(toDelete)
 
